@@ -10,20 +10,21 @@
 
 #include "squid.h"
 #include "AccessLogEntry.h"
+#include "format/Format.h"
 #include "HttpRequest.h"
 #include "log/File.h"
 #include "log/Formats.h"
+#include "MemBuf.h"
 
 void
 Log::Format::SquidUserAgent(const AccessLogEntry::Pointer &al, Logfile * logfile)
 {
-    const char *agent = nullptr;
-
-    if (al->request)
-        agent = al->request->header.getStr(Http::HdrType::USER_AGENT);
-
-    if (!agent || *agent == '\0')
-        agent = "-";
+    // The value is written inside double quotes. Encode it the way the logformat
+    // engine encodes the "%{User-Agent}>h" token of this format's documented
+    // definition (\" \\ \r \n \t), so that a quote in the value cannot end the field.
+    MemBuf agent;
+    agent.init();
+    ::Format::AssembleOne("%\"{User-Agent}>h", agent, al);
 
     char clientip[MAX_IPSTRLEN];
     al->getLogClientIp(clientip, MAX_IPSTRLEN);
@@ -31,6 +32,6 @@ Log::Format::SquidUserAgent(const AccessLogEntry::Pointer &al, Logfile * logfile
     logfilePrintf(logfile, "%s [%s] \"%s\"\n",
                   clientip,
                   Time::FormatHttpd(squid_curtime),
-                  agent);
+                  agent.content());
 }
 
